@@ -7,6 +7,7 @@ import (
 
 	"github.com/bmatcuk/doublestar/v4"
 	"github.com/ozontech/file.d/metric"
+	"github.com/ozontech/file.d/verifhook"
 	"github.com/rjeczalik/notify"
 	"go.uber.org/zap"
 )
@@ -168,6 +169,7 @@ func (w *watcher) notify(e notify.Event, path string) {
 	if err != nil {
 		return
 	}
+	verifhook.Point("file.watcher.afterStat")
 
 	if stat.IsDir() {
 		dirFilename := filename
